@@ -53,6 +53,8 @@ class Explorer:
         self.deadline = deadline
         self.violations = []   # (label, model dict, extra)
         self.witness = {}      # label -> model (vacuity witnesses)
+        self.child_extra = None    # forked path workers: what else to send back / how to merge it
+        self.merge_extra = None
 
     # -- solver helpers ---------------------------------------------------
     def check(self, *extra):
@@ -74,10 +76,15 @@ class Explorer:
             self.solver.pop()
             self.depth -= 1
 
-    def run(self, body):
-        """explore all paths of body(ctx)"""
+    def run(self, body, parallel=0):
+        """explore all paths of body(ctx).  parallel=W: once enough alternatives are pending they are dealt out to W forked worker
+        processes, each of which explores its share (and everything below it) to the end; counters, violations and witnesses are merged."""
         work = [((), 0)]
         while work:
+            if parallel > 1 and len(work) >= max(4, parallel // 2) and self.stats.paths >= 8:
+                self._run_forked(body, work, min(parallel, len(work)))
+                self.pop_to(0)
+                return
             if self.deadline is not None and time.time() > self.deadline:
                 raise Inconclusive('wall-clock budget exhausted with %d paths pending' % len(work))
             prefix, keep = work.pop()
@@ -91,6 +98,94 @@ class Explorer:
             except PathEnd:
                 self.stats.infeasible += 1
         self.pop_to(0)
+
+
+def _forked(self, body, work, W):
+    import os
+    import pickle
+    import subprocess
+    import sys
+    import tempfile
+    tmpdir = tempfile.mkdtemp(prefix='mirsym-paths-')
+    sys.stdout.flush()
+    sys.stderr.flush()
+    base = Stats()
+    base.__dict__.update(self.stats.__dict__)
+    pids = []
+    for w in range(W):
+        pid = os.fork()
+        if pid == 0:
+            code = 0
+            try:
+                mine = work[w::W]
+                self.stats = Stats()
+                self.violations = []
+                self.witness = {}
+                err = None
+                try:
+                    while mine:
+                        if self.deadline is not None and time.time() > self.deadline:
+                            raise Inconclusive('wall-clock budget exhausted with %d paths pending' % len(mine))
+                        prefix, keep = mine.pop()
+                        self.pop_to(keep)
+                        ctx = PathCtx(self, list(prefix), keep, mine)
+                        self.stats.paths += 1
+                        if self.stats.paths > self.max_paths:
+                            raise Inconclusive('path budget exhausted')
+                        try:
+                            body(ctx)
+                        except PathEnd:
+                            self.stats.infeasible += 1
+                except Inconclusive as e:
+                    err = str(e)
+                viol = []
+                for lab, mdl, info in self.violations:
+                    try:
+                        pickle.dumps(info)
+                    except Exception:
+                        info = dict(unpicklable=repr(info)[:2000])
+                    viol.append((lab, None, info))
+                with open(os.path.join(tmpdir, '%d.pkl' % w), 'wb') as f:
+                    pickle.dump(dict(stats=self.stats.__dict__, viol=viol, witness={k: True for k in self.witness}, err=err,
+                                     extra=self.child_extra() if self.child_extra else None), f)
+            except BaseException:
+                import traceback
+                traceback.print_exc()
+                code = 3
+            finally:
+                sys.stdout.flush()
+                sys.stderr.flush()
+                os._exit(code)
+        pids.append(pid)
+    bad = False
+    for pid in pids:
+        _, st = os.waitpid(pid, 0)
+        bad = bad or st != 0
+    errs = []
+    for w in range(W):
+        fp = os.path.join(tmpdir, '%d.pkl' % w)
+        if not os.path.exists(fp):
+            bad = True
+            continue
+        r = pickle.load(open(fp, 'rb'))
+        for k, v in r['stats'].items():
+            setattr(self.stats, k, getattr(self.stats, k) + v)
+        self.violations += r['viol']
+        for k in r['witness']:
+            self.witness.setdefault(k, True)
+        if r['err']:
+            errs.append(r['err'])
+        if self.merge_extra and r.get('extra') is not None:
+            self.merge_extra(r['extra'])
+    subprocess.run(['rm', '-rf', tmpdir])
+    del work[:]
+    if bad:
+        raise Inconclusive('a path worker process ended abnormally (out of memory?)')
+    if errs:
+        raise Inconclusive(errs[0])
+
+
+Explorer._run_forked = _forked
 
 
 class PathCtx:
